@@ -297,6 +297,10 @@ class Audit:
                 tgt = kernel_target(ap, follow)
                 if event == "os.mkdir" and os.path.lexists(ap):
                     continue                   # makedirs(exist_ok=True) probing an existing directory: no effect
+                if event == "open" and tgt is not None and os.path.isdir(tgt) and not (len(args) > 2 and isinstance(args[2], int) and args[2] & os.O_DIRECTORY):
+                    # open() of a directory as a file fails with EISDIR: nothing is read or written.
+                    # (os.open(dir, O_RDONLY) for fsync succeeds but reads no content and lists nothing.)
+                    continue
                 self.events.append((event, p, tgt, os.getcwd()))
         finally:
             self.on = True
